@@ -124,7 +124,7 @@ class Run:
     # ---- controller
     def _log(self, t, k, op="-", res="-", cid=0, at=None):
         o = observe(self.pool, self.dbapi)
-        ev = {"t": t, "k": k, "op": op, "res": res, "id": cid, "clock": self.clock.now - CLOCK0, "o": o}
+        ev = {"t": t, "k": k, "op": op, "res": res, "id": cid, "clock": int(self.clock.now - CLOCK0), "o": o}
         if at is not None:
             ev["at"] = "%s:%s:%s" % at      # where the thread is parked now (diagnostics; not sent to TLC)
         tick = k == "run" and self.last_obs == o
